@@ -42,12 +42,16 @@ Check(e) ==
             v1 == One(e.ok, e.panic, e.bytes, "")
             v2 == One(e.Okf, e.Panicf, e.Bytesf, "/direct")
             v3 == One(e.Okp, e.Panicp, e.Bytesp, "/direct-into-filled-buffer")
+            v4 == One(e.Okr, e.Panicr, e.Bytesr, "/direct-again")
         IN IF v1 \notin {"ok", "note-nil-body-dereference"} THEN v1
            ELSE IF v2 \notin {"ok", "note-nil-body-dereference"} THEN v2
            ELSE IF v3 \notin {"ok", "note-nil-body-dereference"} THEN v3
            ELSE IF ~e.PrefixKept THEN "encoder-changed-octets-already-in-the-buffer"
            ELSE IF e.Okf /\ e.Okp /\ e.Bytesf # e.Bytesp THEN "encoding-depends-on-buffer-contents"
-           ELSE IF "note-nil-body-dereference" \in {v1, v2, v3} THEN "note-nil-body-dereference" ELSE "ok"
+           ELSE IF v4 \notin {"ok", "note-nil-body-dereference"} THEN v4
+           ELSE IF e.Okf /\ e.Okr /\ e.Bytesf # e.Bytesr THEN "encoding-depends-on-earlier-encoding"
+           ELSE IF e.HdrB4 # e.HdrAf THEN "encoding-changed-the-header-view"
+           ELSE IF "note-nil-body-dereference" \in {v1, v2, v3, v4} THEN "note-nil-body-dereference" ELSE "ok"
     [] OTHER -> "ok"
 Init == l = 1 /\ TLCSet(2, 0)
 Next == /\ l <= Len(TraceLog)
